@@ -179,7 +179,8 @@ class C24(core.Prop):
             return SIG_BYPASS_LOOP
         if "bypass-inside-recursion" in flags:
             return SIG_BYPASS_REC
-        if "dijkstra-local-route-appended-to-gathered-links" in flags and sig in ("route-mismatch", "sp-segment-not-a-chain"):
+        if "dijkstra-local-route-appended-to-gathered-links" in flags and sig not in ("latency", "crash", "nontermination", "exception", "unknown-link"):
+            # the Dijkstra segment sits in front of the links gathered before it: whatever predicate meets it first fails
             return SIG_DIJ_PREPEND
         return sig
 
